@@ -190,6 +190,58 @@ def gap_zone(rng, f, d):
     return z, want
 
 
+def reach_edge(rng, which):
+    """(observer, depression, zone, date): the last (or first) day of the season on which the
+    twilight depression is still reached, shown in a zone in which that day's event reads about
+    00:00 — the date re-matching then has to try the neighbouring day, on which the depression
+    is NOT reached any more: the error path inside the retry"""
+    from astral import Observer as _O
+    north = rng.random() < 0.5
+    lat = rng.uniform(48.6, 65.0) * (1 if north else -1)
+    o = _O(lat, gens.rand_lon(rng), 0.0)
+    dep = float(rng.choice([6, 12, 18, 18, 12]))
+    f = sun.dusk if which == "dusk" else sun.dawn
+    year = rng.randint(1902, 2098)
+    forward = rng.random() < 0.5            # the edge going into the white nights, or coming out
+    if north:
+        start = datetime.date(year, 3, 10) if forward else datetime.date(year, 10, 1)
+    else:
+        start = datetime.date(year, 9, 10) if forward else datetime.date(year + 1, 4, 1)
+    step = datetime.timedelta(days=1 if forward else -1)
+    last = None
+    d = start
+    for _ in range(140):
+        st, t = call(f, o, d, dep)
+        if st == "ok":
+            last = (d, t)
+        elif last is not None:
+            break
+        d = d + step
+    else:
+        return None
+    if last is None:
+        return None
+    # look for a (zone, date) whose first candidate exists but reads another local date while
+    # the neighbouring day the retry turns to has no event at all
+    one = datetime.timedelta(days=1)
+    for _ in range(6):
+        z = zones.midnight_zone(rng, last[1])
+        for dd in (0, -1, 1, -2, 2):
+            D = last[0] + dd * one
+            st, t = call(f, o, D, dep)
+            if st != "ok":
+                continue
+            Dl = t.astimezone(z.tzinfo).date()
+            if Dl == D:
+                continue
+            nd = D + (one if Dl < D else -one)
+            st2, _t2 = call(f, o, nd, dep)
+            if st2 != "ok":
+                return o, dep, z, D
+    local = last[1].astimezone(z.tzinfo).date()
+    return o, dep, z, local + datetime.timedelta(days=rng.choice([-1, 0, 0, 1]))
+
+
 def gen_events(rng, n, tier="quick"):
     """dawn sunrise sunset dusk time_at_elevation noon midnight"""
     prev = None
@@ -245,6 +297,10 @@ def gen_events(rng, n, tier="quick"):
                 o, (z, d) = o2, g
                 if k < 2:
                     dep = fdep
+        if k in (0, 1, 8) and rng.random() < 0.15:
+            e = reach_edge(rng, "dusk" if (k == 1 or (k == 8 and rng.random() < 0.5)) else "dawn")
+            if e is not None:
+                o, dep, z, d = e
         tz = z.tzinfo
         if k == 0:
             yield _event_case(rng, "dawn", o, d, z, " " + F(dep),
@@ -274,8 +330,6 @@ def gen_events(rng, n, tier="quick"):
         elif k == 7:
             yield _event_case(rng, "midnight", o, d, z, "", lambda: sun.midnight(o, d, tz), {})
         else:
-            dep = gens.rand_depression(rng)
-
             def fmt(v, tzi):
                 if type(v) is not dict or list(v.keys()) != ["dawn", "sunrise", "noon", "sunset", "dusk"]:
                     return "Xkeys:%s" % (",".join(map(str, v.keys())) if type(v) is dict else type(v).__name__)
@@ -301,6 +355,10 @@ def gen_periods(rng, n, tier="quick"):
                                           lambda dd: sun.sunset(o, dd), lambda dd: sun.sunrise(o, dd)]), d)
             if g is not None:
                 z, d = g
+        if i % 6 in (1, 2) and rng.random() < 0.12:
+            e = reach_edge(rng, rng.choice(["dusk", "dawn"]))
+            if e is not None:
+                o, _dep, z, d = e
         tz = z.tzinfo
         k = i % 6
         di = rng.choice([RISING, SETTING])
